@@ -143,3 +143,18 @@ Theorem C12_revert_restores_with_update_refuted :
     end.
 Proof. exact revert_restores_with_update_refuted. Qed.
 Print Assumptions C12_revert_restores_with_update_refuted.
+
+(** Why the discipline is needed: a handle opened inside a reverted span and used after the
+    revert re-publishes the reverted write (known, documented modelling decision: the node
+    never holds a handle across a block rollback). *)
+Theorem C12_held_handle_resurrects_reverted_write :
+  let ops := [OSnap; OOpen 7; OSet 0 1 5; OStage 0; OOpen 7; ORollback 0; OSet 1 2 9; OStage 1]%N in
+  match run (sdb_new [] [] []) ops with
+  | Ok d => match alookup 7%N (d_cache d) with
+            | Some o => get_data d o 1%N = Ok (Some 5%N)
+            | None => False
+            end
+  | Panic => False
+  end.
+Proof. exact held_handle_resurrects_reverted_write. Qed.
+Print Assumptions C12_held_handle_resurrects_reverted_write.
